@@ -52,7 +52,7 @@ def worker(job):
     try:
         dom = E.domain_of(inst)
         meas = E.measurements(inst, "dense")
-        total = float(sum(inst["x"])) if mode != "estimated" else None
+        total = float(sum(inst["x"])) if mode not in ("estimated", "exact_est") else None
         eng = LocalInference(dom, iters=iters, marginal_oracle=oracle)
         if len(job) > 4 and job[4]:
             # an earlier call on the same object that measured the same cliques with other answers must not matter
@@ -134,9 +134,10 @@ def worker(job):
                 res["pair_mismatch"], res["hasse_edges"] = worst, hasse
         res["bad"] = bad
         res["total"] = tot
-        if mode == "exact":
+        if mode in ("exact", "exact_est"):
             ex = E.quiet(FactoredInference(dom, iters=3000).estimate, meas, total=total)
             res["exact_loss"] = E.l2_loss_of_model(ex, meas)
+            res["exact_total"] = float(ex.total)
     except RecursionError as ex:
         res["crash"] = "RecursionError (unbounded restart chain)"
     except Exception as ex:
@@ -209,7 +210,7 @@ def run(ctx, canary=False):
         oracle = ["convex", "approx", "pairwise"][k % 3]
         second = False
         if k % 4 == 3:
-            inst, mode = disjoint_instance(rng), "exact"
+            inst, mode = disjoint_instance(rng), rng.choice(["exact", "exact", "exact_est"])
             iters = 1500 if not thorough else 3000
             second = rng.random() < 0.5
         elif k % 8 == 0:
@@ -246,7 +247,11 @@ def run(ctx, canary=False):
         if oracle == "convex" and res.get("pair_mismatch", 0.0) >= res.get("hasse_edges", 0) + 1e-9 and res.get("pair_mismatch", 0.0) >= 1.0:
             ctx.violation("convex oracle: a region's table and a sub-region's table disagree by %r (L1), more than the enforced tolerance allows over "
                           "the %d edges of the region poset" % (res["pair_mismatch"], res["hasse_edges"]), info, {"kind": "infeasible", "oracle": oracle})
-        if mode == "exact":
+        if mode in ("exact", "exact_est"):
+            if abs(res["total"] - res["exact_total"]) > 1e-8 * max(1.0, abs(res["exact_total"])):
+                ctx.violation("disjoint cliques: approximate estimation settles on total %r, exact estimation on %r" % (res["total"], res["exact_total"]),
+                              info, {"kind": "not_exact", "oracle": oracle})
+                continue
             ex = res["exact_loss"]
             exc = (res["loss"] - ex) / max(1.0, res["l0"] - ex)
             worst_excess = max(worst_excess, exc)
